@@ -120,6 +120,10 @@ pub fn pinned(prop: &str) -> Vec<SProg> {
             v.push(sp(vec![vec![Recv], vec![Fail(1)]]));
             v.push(sp(vec![vec![Park], vec![Fail(1)]]));
             v.push(sp(vec![vec![Lock(0), CvWait, Unlock(0)], vec![Fail(1)]]));
+            v.push(sp(vec![vec![Lock(0), FailInCell(0), Unlock(0)], vec![Lock(0), Unlock(0)]]));
+            v.push(sp(vec![vec![Join(1)], vec![Read, FailInAtomicMut(1), RwUnlock]]));
+            v.push(SProg { threads: vec![vec![Lock(0), Lock(1), Unlock(1), Unlock(0)], vec![Lock(1), Lock(0), Unlock(0), Unlock(1)]], loom_arc: true, forget_rx: false });
+            v.push(SProg { threads: vec![vec![Send(1), Park], vec![Write, Park, RwUnlock]], loom_arc: true, forget_rx: false });
         }
         "C07" => {
             v.push(sp(vec![vec![Lock(0), Incr(0), Unlock(0)], vec![Lock(0), Incr(0), Unlock(0)], vec![Lock(0), Incr(0), Unlock(0)]]));
@@ -224,9 +228,12 @@ pub fn judge(prop: &str, p: &SProg, rec: &mut Rec, tier: u8, verbose: bool) {
     rec.hash = p.hash();
     rec.prog = p.s();
     rec.extra = json!({"family": "sync"});
-    let r = match reference(p, 400_000) {
-        Some(r) => r,
-        None => {
+    // `must`: what every interleaving of the program's operations can do (no spurious wake-up) — the
+    // completeness obligation; `r` (may): additionally with the single spurious Notify return loom is
+    // allowed to model — the soundness bound.
+    let (must, r) = match (reference(p, 400_000, false), reference(p, 400_000, true)) {
+        (Some(a), Some(b)) => (a, b),
+        _ => {
             rec.status = "inconclusive:reference-budget".into();
             return;
         }
@@ -247,26 +254,31 @@ pub fn judge(prop: &str, p: &SProg, rec: &mut Rec, tier: u8, verbose: bool) {
         rec.status = "inconclusive:iteration-cap".into();
         return;
     }
-    // failure kinds the specification can reach
-    let mut expected: Vec<PanicKind> = Vec::new();
-    if r.can_deadlock() {
-        expected.push(PanicKind::Deadlock);
-    }
-    if r.can_race() {
-        expected.push(PanicKind::Causality);
-    }
-    if r.can_leak() {
-        expected.push(PanicKind::LeakMsgs);
-    }
-    for id in r.fails() {
-        expected.push(PanicKind::User(id.to_string()));
-    }
+    // failure kinds the specification can reach (allowed), and those it reaches without a spurious wake-up (owed)
+    let kinds = |r: &RefResult| {
+        let mut v: Vec<PanicKind> = Vec::new();
+        if r.can_deadlock() {
+            v.push(PanicKind::Deadlock);
+        }
+        if r.can_race() {
+            v.push(PanicKind::Causality);
+        }
+        if r.can_leak() {
+            v.push(PanicKind::LeakMsgs);
+        }
+        for id in r.fails() {
+            v.push(PanicKind::User(id.to_string()));
+        }
+        v
+    };
+    let expected = kinds(&r);
+    let owed = kinds(&must);
     let site = |k: &PanicKind| format!("{} @ {} [{}]", k.short(), l.panic_file, trig);
     let detail = |what: &str| format!("{} ; reference terminals: {} ; loom: {:?} after {} iterations ; last log {:?}", what, fmt_terms(&r.terms, 8), l.panic.as_ref().map(|m| m.lines().next().unwrap_or("").to_string()), l.iters, l.last_log);
-    match (&observed, expected.is_empty()) {
+    match (&observed, owed.is_empty()) {
         (None, true) => {
             let dones = r.dones();
-            let miss: BTreeSet<_> = dones.difference(&l.outcomes).cloned().collect();
+            let miss: BTreeSet<_> = must.dones().difference(&l.outcomes).cloned().collect();
             let extra: BTreeSet<_> = l.outcomes.difference(&dones).cloned().collect();
             if !miss.is_empty() {
                 rec.v("missing_outcome", missing_signature(p, &miss, &r), format!("results never produced: {} ; loom produced {} in {} iterations", fmt_terms(&miss, 4), fmt_terms(&l.outcomes, 8), l.iters));
@@ -279,7 +291,7 @@ pub fn judge(prop: &str, p: &SProg, rec: &mut Rec, tier: u8, verbose: bool) {
             }
         }
         (None, false) => {
-            for k in &expected {
+            for k in &owed {
                 let clause = match k {
                     PanicKind::Deadlock => "missed_deadlock",
                     PanicKind::Causality => "missed_race",
@@ -326,6 +338,9 @@ fn missing_signature(p: &SProg, miss: &BTreeSet<Term>, full: &RefResult) -> Stri
     let mut sigs: Vec<&str> = Vec::new();
     for (name, variant) in RESTRICTIONS {
         if let Some(r2) = reference_restricted(p, variant) {
+            if std::env::var("LV_DEBUG_SIG").is_ok() {
+                eprintln!("restricted {} -> {:?}", name, r2);
+            }
             if miss.iter().all(|m| !r2.contains(m)) {
                 sigs.push(name);
             }
@@ -335,7 +350,7 @@ fn missing_signature(p: &SProg, miss: &BTreeSet<Term>, full: &RefResult) -> Stri
 }
 
 const RESTRICTIONS: [(&str, Restrict); 4] = [
-    ("needs_progress_of_a_thread_right_after_its_spurious_notify_return", Restrict::YieldAfterSpurious),
+    ("needs_spurious_notify_return", Restrict::YieldAfterSpurious),
     ("needs_failing_try_acquire", Restrict::NoFailingTry),
     ("needs_successful_try_recv", Restrict::NoSuccessfulTryRecv),
     ("needs_unpark_of_a_thread_that_is_not_parked", Restrict::NoUnparkToken),
@@ -377,7 +392,7 @@ pub enum Restrict {
 
 /// Terminals of the reference when every path containing the restricted feature is cut.
 fn reference_restricted(p: &SProg, r: Restrict) -> Option<BTreeSet<Term>> {
-    let m = Machine { p, fifo: true };
+    let m = Machine { p, fifo: true, spurious: r != Restrict::YieldAfterSpurious };
     let mut seen = std::collections::HashSet::new();
     let mut out = BTreeSet::new();
     // (state, mask of threads that yielded after a spurious return)
@@ -439,10 +454,65 @@ fn reference_restricted(p: &SProg, r: Restrict) -> Option<BTreeSet<Term>> {
     Some(out)
 }
 
+/// Probe model: its complete per-iteration record must be the same in a fresh process and after
+/// any number of failed models (C06 "a later model run in the same process starts clean", C16).
+pub fn probe() -> (Vec<Vec<u64>>, Vec<Vec<(u8, u8)>>, Vec<u64>, Option<String>, String) {
+    use crate::lit::{self, Op, Ord_::*};
+    let p = lit::Prog { nlocs: 2, pre: vec![], threads: vec![vec![Op::Store { loc: 0, val: 1, ord: Rel }, Op::Load { loc: 1, ord: Acq }], vec![Op::Swap { loc: 1, val: 7, ord: AcqRel }, Op::Load { loc: 0, ord: Rlx }], vec![Op::Cas { loc: 0, exp: 1, new: 13, succ: Sc, fail: Rlx }]] };
+    let r = lit::run(&p, &lit::Cfg { iter_cap: 100_000, keep_paths: true, keep_seq: true, ..Default::default() });
+    // plus a blocking program: outcome set and iteration count
+    let sp_ = sp(vec![vec![SOp::Lock(0), SOp::Send(1), SOp::Unlock(0), SOp::Recv, SOp::Join(1)], vec![SOp::TryLock(0), SOp::Unlock(0), SOp::Send(11), SOp::Unpark(0)]]);
+    let l = run_loom(&sp_, &SCfg { iter_cap: 100_000, max_branches: 5000, ..Default::default() });
+    (r.seq, r.order_seq, crate::fam_path::digest_paths(&r.paths), r.panic.or(l.panic), format!("{} {:?}", l.iters, l.outcomes))
+}
+
+/// C06 crash point "the branch limit is reached inside some thread": run once to measure the longest
+/// decision path L, then with max_branches = L - 1 (must unwind with the branch-limit panic) and = L.
+fn branch_limit_crash_point(p: &SProg, rec: &mut Rec, tier: u8) {
+    let cfg = SCfg { iter_cap: if tier == 0 { 30_000 } else { 150_000 }, max_branches: 5_000, keep_paths: true, ..Default::default() };
+    let base = run_loom(p, &cfg);
+    rec.runs += 1;
+    if base.panic.is_some() || base.paths.is_empty() {
+        return;
+    }
+    let l = base.paths.iter().map(|x| x.len()).max().unwrap_or(0);
+    if l < 2 {
+        return;
+    }
+    let r = run_loom(p, &SCfg { max_branches: l - 1, keep_paths: false, ..cfg.clone() });
+    rec.runs += 1;
+    rec.iters += r.iters as u64;
+    if r.kind() != Some(PanicKind::BranchLimit) {
+        rec.v("missed_failure", "branch_limit", format!("longest decision path {}; max_branches = {} ended with {:?}", l, l - 1, r.kind().map(|k| k.short())));
+    }
+    let r = run_loom(p, &SCfg { max_branches: l, keep_paths: false, ..cfg });
+    rec.runs += 1;
+    rec.iters += r.iters as u64;
+    if r.panic.is_some() {
+        rec.v("false_failure", "branch_limit", format!("max_branches = {} (exact need) ended with {:?}", l, r.kind().map(|k| k.short())));
+    }
+}
+
 pub fn work(prop: &str, tier: u8, seed: u64, idx: usize) -> Rec {
     let mut rec = Rec::new(idx);
     let p = prog_at(prop, tier, seed, idx);
-    judge(prop, &p, &mut rec, tier, false);
+    if prop == "C06" {
+        static FRESH: OnceLock<(Vec<Vec<u64>>, Vec<Vec<(u8, u8)>>, Vec<u64>, Option<String>, String)> = OnceLock::new();
+        let fresh = FRESH.get_or_init(probe);
+        judge(prop, &p, &mut rec, tier, false);
+        if idx % 4 == 0 && rec.viol.is_empty() && rec.status == "ok" {
+            branch_limit_crash_point(&p, &mut rec, tier);
+        }
+        let after = probe();
+        rec.runs += 2;
+        rec.iters += after.0.len() as u64;
+        if &after != fresh {
+            rec.v("dirty_after_failure", "", format!("the probe model behaves differently after this model: {} iterations vs {} in a fresh process; panic {:?}", after.0.len(), fresh.0.len(), after.3));
+            rec.prog_json = serde_json::to_value(&p).unwrap();
+        }
+    } else {
+        judge(prop, &p, &mut rec, tier, false);
+    }
     rec
 }
 
